@@ -198,9 +198,9 @@ theorem handleReplyStep_more {cs cs' : CtxSt} {id : ReqId} {ok : Bool} {more : L
     (h : handleReplyStep cs id ok = some (cs', more, o)) : ∀ op ∈ more, op.isSnapLocal = false := by
   unfold handleReplyStep at h
   split at h
-  · simp at h
+  · simp only [Option.some.injEq, Prod.mk.injEq] at h; obtain ⟨rfl, rfl, rfl⟩ := h; simp
   · split at h
-    · simp at h
+    · simp only [Option.some.injEq, Prod.mk.injEq] at h; obtain ⟨rfl, rfl, rfl⟩ := h; simp
     · split at h
       · simp only [Option.some.injEq, Prod.mk.injEq] at h
         obtain ⟨-, rfl, -⟩ := h
